@@ -29,6 +29,7 @@ import (
 	"time"
 
 	"github.com/Comcast/sheens/core"
+	"github.com/Comcast/sheens/match"
 )
 
 func init() {
@@ -406,6 +407,11 @@ func reviseCopy(spec *core.Spec) {
 		}
 	}
 	cp.Compile(context.Background(), interpreters(), true)
+	// ... a revision that keeps its sources (the copy's branches share their guards' *ActionSource with the version in
+	// use: Branch.Copy is shallow) and is compiled from source for a host that maps the interpreter's name to another
+	// interpreter, whose compiled form is of another kind: what the version in use runs stays what it was compiled to
+	cp3 := spec.Copy("revision-3")
+	cp3.Compile(context.Background(), core.InterpretersMap{"ecmascript": otherInterpreter{}, "": otherInterpreter{}}, true)
 	// ... and the gentler way: a node with a new action is added to a copy and the copy compiled without force; a copy
 	// that Compile accepts is a compiled specification (no step reports "uncompiled action" / "not compiled")
 	cp2 := spec.Copy("revision-2")
@@ -613,4 +619,16 @@ func specswapComponent(g *G, n int, opts map[string]string) *Out {
 		walkers, total, procs),
 		"non-trivial = some walker's walks under the two versions differ")
 	return o
+}
+
+
+// otherInterpreter: an interpreter another host might install under the same name; its compiled form is a string.
+type otherInterpreter struct{}
+
+func (otherInterpreter) Compile(ctx context.Context, code interface{}) (interface{}, error) {
+	return fmt.Sprintf("other:%v", code), nil
+}
+
+func (otherInterpreter) Exec(ctx context.Context, bs match.Bindings, props core.StepProps, code interface{}, compiled interface{}) (*core.Execution, error) {
+	return core.NewExecution(bs), nil
 }
